@@ -2,9 +2,13 @@ package main
 
 import (
 	"fmt"
+	"path"
 	"sort"
 	"strings"
 )
+
+// symlinkPrefix marks a file-map entry that is a symbolic link to the rest of the string.
+const symlinkPrefix = "\x00SYMLINK:"
 
 // Vars are the source-level variables of the project shape; source files are rendered
 // from them, so an edit is a change of one variable and "revert" reproduces the same text.
@@ -26,6 +30,8 @@ type Vars struct {
 	Edge    bool // top depends on //pkg:leaf
 	Other   bool // target //pkg:other exists
 	FlagV   int  // value of the flag read by leaf's package (passed as --pkg.mode=…)
+	Link    int  // 0: no link; 1: dir/link -> ../misc/n.txt; 2: dir/link -> ../misc/m.txt (a symbolic link inside the source directory)
+	Late    int  // value of a global that gen's function refers to but that is assigned below the target() call
 	Missing bool // top also depends on a target that does not exist
 	Cycle   bool // leaf depends on top (a dependency cycle when the edge top->leaf exists)
 	Chatty  bool // bodies print lines (and a trailing partial line) through the thread's stdout
@@ -64,6 +70,13 @@ func (v Vars) render() map[string]string {
 		f["dir/w.txt"] = "w\n"
 	}
 	f["misc/n.txt"] = fmt.Sprintf("n%d\n", v.N)
+	f["misc/m.txt"] = "m\n"
+	switch v.Link {
+	case 1:
+		f["dir/link"] = symlinkPrefix + "../misc/n.txt"
+	case 2:
+		f["dir/link"] = symlinkPrefix + "../misc/m.txt"
+	}
 
 	var lib strings.Builder
 	if v.C2 {
@@ -91,7 +104,7 @@ func (v Vars) render() map[string]string {
 	fmt.Fprintf(&b, "closure = make(%d)\n", 7+v.V)
 	b.WriteString(`def _gen(t):
     step("gen")
-    emit("gen/g.txt", "g:" + slurp("src/a.txt") + ":" + str(helper(0)))
+    emit("gen/g.txt", "g:" + slurp("src/a.txt") + ":" + str(helper(0)) + ":" + str(LATE))
     emit("out/gen.side", "side")
 target(name="gen", function=_gen, sources=["src/a.txt"], generates=["gen/g.txt"])
 def _mid(t):
@@ -115,6 +128,7 @@ def _top(t):
 		b.WriteString("    emit(\"out/top\", \"top:\" + slurp(\"out/mid\"))\n")
 		b.WriteString("target(name=\"top\", function=_top, deps=[\":mid\"" + extra + "])\n")
 	}
+	fmt.Fprintf(&b, "LATE = %d\n", 7+v.Late) // assigned after the targets that refer to it were registered
 	f["BUILD.dawn"] = b.String()
 
 	var p strings.Builder
@@ -146,7 +160,7 @@ func (v Vars) args() []string {
 func (v Vars) env(t string) string {
 	switch t {
 	case tGen:
-		return fmt.Sprintf("K%d H%d", v.K, v.H)
+		return fmt.Sprintf("K%d H%d L%d", v.K, v.H, v.Late)
 	case tMid:
 		return fmt.Sprintf("G%d V%d", v.G, v.V)
 	case tTop:
@@ -174,7 +188,12 @@ func (v Vars) srcs(t string, files map[string]string) string {
 		sort.Strings(names)
 		var b strings.Builder
 		for _, n := range names {
-			b.WriteString(n + "=" + files[n] + ";")
+			c := files[n]
+			if strings.HasPrefix(c, symlinkPrefix) {
+				// a link counts with what it resolves to
+				c = "->" + files[path.Join(path.Dir(n), strings.TrimPrefix(c, symlinkPrefix))]
+			}
+			b.WriteString(n + "=" + c + ";")
 		}
 		g, ok := files["gen/g.txt"]
 		return b.String() + fmt.Sprintf("|g=%v:%s", ok, g)
